@@ -44,7 +44,10 @@ func VerifC17Journal() {
 	nrecMode := rt.Choose("nrec.mode", 3) // exact / 0 (not yet synced) / -1 (no-sync mode)
 	cut := rt.Choose("cut", 5)            // none / torn final record / header zeroed / empty file / cut inside the header
 
-	// build the journal
+	// build the journal; the sector size is any value SQLite accepts (a power of two in 32..65536)
+	// (sectors smaller than a record are in VerifC17JournalSmallSector: there the sector-aligned offset after a
+	// torn record falls inside the record, where page bytes may imitate a header)
+	sector := []int{512, 65536, 1024, 4096}[rt.Choose("sector.size", 2+2*rt.Tier())]
 	var j []byte
 	nonce := rt.U32("nonce")
 	perSeg := k
@@ -58,8 +61,8 @@ func VerifC17Journal() {
 		if s == 1 {
 			cnt = k - perSeg
 		}
-		for len(j)%512 != 0 {
-			j = append(j, 0)
+		if pad := (sector - len(j)%sector) % sector; pad > 0 {
+			j = append(j, make([]byte, pad)...)
 		}
 		nrec := int32(cnt)
 		if s == segs-1 {
@@ -73,7 +76,14 @@ func VerifC17Journal() {
 				}
 			}
 		}
-		j = append(j, verifJournalHeader(nrec, nonce, uint32(n0))...)
+		hdr := verifJournalHeader(nrec, nonce, uint32(n0))
+		binary.BigEndian.PutUint32(hdr[20:], uint32(sector))
+		if sector < len(hdr) {
+			hdr = hdr[:sector]
+		} else {
+			hdr = append(hdr, make([]byte, sector-len(hdr))...)
+		}
+		j = append(j, hdr...)
 		for i := 0; i < cnt; i++ {
 			j = append(j, verifJournalRecord(uint32(order[idx]), img0[order[idx]-1], nonce)...)
 			idx++
@@ -395,4 +405,40 @@ func VerifC17WAL() {
 	chk, cerr := db.checksum(db.PageN(), nil)
 	rt.Check(cerr == nil && chk == verifSpecChecksum(w.verifReadImage()), "C04: checksum cache matches the checkpointed image")
 	rt.Check(db.Pos() == pos0, "a checkpoint does not move the position")
+}
+
+// VerifC17JournalSmallSector: sector size 32 (the smallest SQLite accepts): one
+// complete record and a torn second one. The sector-aligned offset after the
+// last complete record lies inside the torn record, whose bytes are arbitrary
+// page content and may imitate a segment header. Under SQLite's rules the size
+// the database is cut back to comes from the first header only, and nothing is
+// written outside the database's pages.
+func VerifC17JournalSmallSector() {
+	ctx := context.Background()
+	w := verifNewStore(true)
+	n0 := 2
+	img0 := verifImage("img0", n0, false)
+	w.verifOpenDB(img0, 41)
+	db := w.db
+	nonce := rt.U32("nonce")
+	hdr := verifJournalHeader([]int32{1, 0, -1}[rt.Choose("nrec.mode", 3)], nonce, uint32(n0))
+	binary.BigEndian.PutUint32(hdr[20:], 32)
+	j := append([]byte{}, hdr[:32]...)
+	j = append(j, verifJournalRecord(1, img0[0], nonce)...)
+	torn := rt.Bytes("torn.record", 60+64*rt.Tier()) // arbitrary bytes where the second record began
+	j = append(j, torn...)
+	cur := [][]byte{rt.Bytes("mod", verifP), img0[1]}
+	if rt.Choose("grown", 2) == 1 {
+		cur = append(cur, rt.Bytes("grown", verifP))
+	}
+	must(os.WriteFile(db.DatabasePath(), verifJoin(cur), 0o666))
+	must(os.WriteFile(db.JournalPath(), j, 0o666))
+	var err error
+	rt.NoHang(3000, func() { err = db.Recover(ctx) })
+	rt.Check(err == nil && len(w.exits) == 0, "rollback succeeds")
+	rt.Check(verifGone(db.JournalPath()), "no hot journal is left")
+	b, rerr := os.ReadFile(db.DatabasePath())
+	rt.Check(rerr == nil && len(b) == n0*verifP, "the database is cut back to the size recorded in the first journal header, whatever bytes follow the last valid record")
+	rt.Check(db.PageN() == uint32(n0), "page count restored")
+	rt.Reach("c17.journal.smallsector")
 }
